@@ -27,7 +27,9 @@ MANIFEST = dict(
          "(rerun_idempotent, ins_rerun_idempotent, final_checkpoint_holds_flag; the short-circuit returns the same expressions as the "
          "normal exit: rerun_returns_same_expressions) with the counter-example that a run stopped only by the "
          "cap is not (rerun_idempotent_fails_without); alias resolution is total and unambiguous, unknown names are rejected "
-         "(alias_resolution_total, unknown_rejected, configure_errors + the silent-drop counter-example); ESS equals Kish's formula, "
+         "(alias_resolution_total, unknown_rejected, configure_errors + the silent-drop counter-example) and the resolved list is the "
+         "user's list in the user's order, so the k-th tolerance belongs to the k-th named criterion (resolved_in_user_order, from "
+         "the translated loop nesting); ESS equals Kish's formula, "
          "the evidence error the unbiased variance of the mean, ratio/log_dZ/Z_err their logarithmic forms over the reals. "
          "Tie: (1) the real nested_sampling_loop/finalise/configure_* of both samplers driven on scripted condition/criterion "
          "trajectories (expensive parts patched on real instances) against the Lean driver, exact; (2) the six criteria of the real "
@@ -583,6 +585,15 @@ def config_tie(ctx, ins, n):
             elif out != "err=unknown":
                 ctx.oracle_fail("ImportanceNestedSampler.configure_stopping_criterion:unknown",
                                 f"unknown criterion {nl[0]!r} was not rejected: {out}", c)
+        # oracle: known names, one tolerance each -> the k-th tolerance is compared with the k-th name's criterion
+        if all(n_ in known for n_ in nl) and nt == len(nl) and check in ("any", "all"):
+            want_pairs = [(next(k for k, al in table.items() if n_ in al), float(v))
+                          for n_, v in zip(nl, tol if isinstance(tol, list) else [tol])]
+            got_pairs = list(zip(s.stopping_criterion, s.tolerance)) if out.startswith("ok ") else out
+            if got_pairs != want_pairs:
+                ctx.oracle_fail("ImportanceNestedSampler.configure_stopping_criterion:pairing",
+                                f"user configured {list(zip(nl, tol if isinstance(tol, list) else [tol]))} = pairs {want_pairs}; "
+                                f"the sampler will compare {got_pairs}", c)
     for mn in (None, -3, -1, 0, 1, 2, 7):
         for mx in (None, -1, 0, 1, 5, 10 ** 6):
             s.configure_iterations(mn, mx)
@@ -989,17 +1000,32 @@ def run_ins_real(ctx, cfg, tmp):
         if bad:
             ctx.disagree("criteria on a real run: exact model differs from the reported values on " + ",".join(bad),
                          {"iteration": sn["it"], "impl": sn["attrs"], "model": {k: e[k] for k in CANON}, "case": c})
-    # ---- oracle: first crossing
-    seq = [[math.inf] * len(names)] + [sn["cond"] for sn in snaps[:K]]
-    stop = lambda j: (met_ins(any_, seq[j], tols) and j >= mn) or (j >= 1 and j >= cap)   # noqa
+    # ---- oracle: first crossing.  The rule is evaluated on what the USER configured: each name is resolved through the
+    # alias table here (not read back from the sampler) and paired with the tolerance given for it, in the user's order.
+    table = dict(ImportanceNestedSampler.stopping_criterion_aliases)
+    u_names = [cfg["criterion"]] if isinstance(cfg["criterion"], str) else list(cfg["criterion"])
+    u_tols = [float(v) for v in (cfg["tol"] if isinstance(cfg["tol"], list) else [cfg["tol"]])]
+    u_canon = [next(k for k, al in table.items() if n_ in al) for n_ in u_names]
+    u_any = cfg["check"] == "any"
+    u_mn = -1 if cfg["min"] is None else int(cfg["min"])
+    u_cap = math.inf if cfg["cap"] is None else int(cfg["cap"])
+    pairs = list(zip(u_canon, u_tols))
+    if list(zip(names, tols)) != pairs or any_ != u_any or mn != u_mn or cap != u_cap:
+        ctx.oracle_fail("ImportanceNestedSampler.configure_stopping_criterion:pairing",
+                        f"user configured {list(zip(u_names, u_tols))} ({cfg['check']}, min {cfg['min']}, cap {cfg['cap']}) = criteria/tolerance "
+                        f"pairs {pairs}; the sampler compares {list(zip(names, tols))} (any={any_}, min {mn}, cap {cap})", c)
+    seq = [[math.inf] * len(u_canon)] + [[sn["attrs"][k] for k in u_canon] for sn in snaps[:K]]
+    stop = lambda j: (met_ins(u_any, seq[j], u_tols) and j >= u_mn) or (j >= 1 and j >= u_cap)   # noqa
+    table_rows = [dict(iteration=j, **{f"{k}<={t_}": v for (k, t_), v in zip(pairs, seq[j])}) for j in range(1, K + 1)]
     early = [j for j in range(K) if stop(j)]
     if early:
         ctx.oracle_fail("ImportanceNestedSampler.nested_sampling_loop:stop",
-                        f"kept sampling although the rule was met after {early[0]} iterations (stopped after {K}): "
-                        f"criteria {seq[early[0]]} tolerances {tols} {'any' if any_ else 'all'} min {mn} cap {cap}", c)
-    if not stop(K) and not (K == 0 and met_ins(any_, seq[0], tols) and 0 >= mn):
+                        f"kept sampling although the configured rule was met after {early[0]} iterations (stopped after {K}): "
+                        f"{'any' if u_any else 'all'} of {pairs}, min {u_mn}, cap {u_cap}; reported values {table_rows[:early[0] + 1]}", c)
+    if not stop(K) and not (K == 0 and met_ins(u_any, seq[0], u_tols) and 0 >= u_mn):
         ctx.oracle_fail("ImportanceNestedSampler.nested_sampling_loop:stop",
-                        f"stopped after {K} iterations with criteria {seq[K]} vs tolerances {tols} ({'any' if any_ else 'all'}), min {mn}, cap {cap}", c)
+                        f"stopped after {K} iterations although the configured rule ({'any' if u_any else 'all'} of {pairs}, min {u_mn}, "
+                        f"cap {u_cap}) is not met there; reported values per iteration {table_rows}", c)
     # ---- oracle: finalise consumed every live point once
     ok = fin1 and bool(pre_fin.get("stores"))
     for store, live, nested, n in pre_fin.get("stores", []):
@@ -1062,6 +1088,13 @@ def ins_run_cfgs(ctx, n):
         dict(criterion="fractional_error", tol=0.09, check="all", min=None, cap=7),
         dict(criterion="ratio", tol=0.0, check="any", min=None, cap=4),
         dict(criterion=["evidence_error", "ess", "ratio_ns"], tol=[1.08, 120.0, 1.5], check="all", min=1, cap=8, iid=False),
+        # two / three criteria given in an order different from the alias table, with different tolerances:
+        # the k-th tolerance must be used for the k-th name
+        dict(criterion=["fractional_error", "log_dZ"], tol=[0.05, 0.0], check="any", min=None, cap=6),
+        dict(criterion=["ess", "Z_err"], tol=[500.0, 1.08], check="all", min=None, cap=8),
+        dict(criterion=["log_dZ", "ratio_ns", "Z_err"], tol=[0.02, 3.0, 1.0], check="any", min=None, cap=7),
+        dict(criterion=["fractional_error", "ess", "ratio"], tol=[0.1, 1000.0, 5.0], check="all", min=None, cap=8),
+        dict(criterion=["evidence_error", "ratio_all"], tol=[1.09, -1.0], check="any", min=2, cap=8),
     ]
     out = []
     for i in range(n):
